@@ -96,9 +96,10 @@ pub fn reactions(w: &World, rec: &OpRecord) -> Vec<Reaction> {
                     match &rec.result {
                         OpResult::Downlink(n) => Reaction::Accepted(*n),
                         OpResult::JoinSuccess => Reaction::Accepted(0),
-                        // in RX2 a session expiry may just as well come from closing the procedure
+                        // in RX2 a session expiry may just as well come from closing the procedure, and after an
+                        // injected radio error from the error path that accounts for the uplink
                         OpResult::SessionExpired => {
-                            if d.win == Win::Rx1 {
+                            if d.win == Win::Rx1 && !tail.iter().any(|ev| matches!(ev, Ev::Fault { .. })) {
                                 Reaction::Expired
                             } else {
                                 Reaction::Unknown
